@@ -144,11 +144,7 @@ theorem contactRun_shape (fn : Fn R) (K : Tissue.Consts R) (cells : List (Cell R
 theorem corners_polariseFace (cells : List (Cell R)) (c : Cell R) (fi : Nat) (f : Face) :
     corners (polariseFace cells c fi f) = corners f := by
   unfold polariseFace
-  split
-  · dsimp only
-    repeat' split
-    all_goals rfl
-  · rfl
+  split <;> rfl
 
 theorem shape_polariseCell (cells : List (Cell R)) (c : Cell R) : shape (polariseCell cells c) = shape c := by
   unfold polariseCell
